@@ -141,5 +141,6 @@ func init() {
 	register("C12", "", ruleNextRequestsSearched)
 	register("C01", "", ruleNextRequestsSearched)
 	register("C18", "", ruleUpstreamForward) // the end-of-stream signal (R12b.end) is what lets Listen and its goroutines finish
+	register("C02", "", ruleStitchVariableReserved)
 	register("X6", "debug: R6 over whole module", ruleErr(errScope{label: "all", pkgs: []string{"pebbles", "common", "executor", "format", "gqlerrors", "introspection", "merger", "planner", "queryer", "requests"}}))
 }
